@@ -274,7 +274,7 @@ func TestVerifC05RoundTrip(t *testing.T) {
 	srv := &c05rServer{}
 	srv.srv = httptest.NewServer(srv)
 	defer srv.srv.Close()
-	n := vk.N(600, 30000)
+	n := vk.N(1000, 30000)
 	for idx := 1; idx <= n; idx++ {
 		if !m.Only(idx) {
 			continue
